@@ -423,3 +423,103 @@ class WeakCache:
     def __setitem__(self, key, value):
         self.entry = value
         self.missing = False
+
+
+class NullContext:
+    """contextlib.nullcontext()"""
+
+    def __enter__(self):
+        return None
+
+    def __exit__(self, et, ev, tb):
+        return False
+
+
+def error_filter(exc):
+    """disconnect_error_filter(exc): an arbitrary predicate on the exception."""
+    return nondet_bool()
+
+
+class HandlerGen:
+    """The request handler: an async generator driven by the server.  Trusted model of *any* handler: every resumption either
+    yields a timeout (None or a number), finishes (StopAsyncIteration) or fails with any BaseException.
+    Ghost: ghost.delivered counts the actions handed to it (asend/athrow), self.closed counts the aclose() calls that actually
+    closed a live generator (GeneratorExit thrown into its body)."""
+
+    def __init__(self):
+        self.finished = False
+        self.closed = 0
+
+    def _resume(self):
+        require(not self.finished, "no-resumption-of-a-finished-generator")
+        k = nondet_int()
+        if k == 0:
+            self.finished = True
+            raise StopAsyncIteration
+        if k == 1:
+            self.finished = True
+            raise_any(BaseException, StopAsyncIteration, GeneratorExit)
+        return nondet("opt[xreal]")
+
+    async def __anext__(self):
+        return self._resume()
+
+    async def asend(self, value):
+        ghost.delivered = ghost.delivered + 1
+        return self._resume()
+
+    async def athrow(self, exc):
+        ghost.delivered = ghost.delivered + 1
+        return self._resume()
+
+    async def aclose(self):
+        if self.finished:
+            return None       # closing a finished (or already closed) async generator is a no-op
+        self.closed = self.closed + 1
+        self.finished = True
+        if nondet_bool():
+            raise_any(Exception, StopAsyncIteration)
+        return None
+
+
+async def anext_model(agen):
+    """_asyncgen.anext_without_asyncgen_hook: first advance of the async generator (the asyncgen-hook juggling is not modelled)."""
+    return await agen.__anext__()
+
+
+class AsyncExitStack:
+    """contextlib.AsyncExitStack restricted to callback()/push_async_callback(): callbacks run LIFO on every exit, an
+    exception raised by one of them replaces the pending one and the remaining callbacks still run."""
+
+    def __init__(self):
+        self.cbs = ()
+
+    async def __aenter__(self):
+        return self
+
+    def callback(self, f, *args):
+        self.cbs = self.cbs + (("sync", f, args),)
+        return f
+
+    def push_async_callback(self, f, *args):
+        self.cbs = self.cbs + (("async", f, args),)
+        return f
+
+    async def __aexit__(self, et, ev, tb):
+        pending = None
+        for kind, f, args in reversed(self.cbs):
+            try:
+                if kind == "async":
+                    await f(*args)
+                else:
+                    f(*args)
+            except BaseException as e:
+                pending = e
+        if pending is not None:
+            raise pending
+        return False
+
+
+def make_handler(client):
+    """client_connected_cb(client): creates the handler's async generator (no code of it runs yet)."""
+    return HandlerGen()
